@@ -10,7 +10,7 @@ PID = 'C07'
 LEVEL = 'exploration'
 RULE = ('for every transform family (1-D/2-D DWT forward+inverse, SWT, DTCWT forward+inverse incl. a non-default layout, and the '
         'backward map of each) x configuration sub-lattice (5 modes, short/long filters, odd sizes, J<=3): (1) T(0) is exactly zero; '
-        '(2) superposition T(a e_i + b e_j) = a T(e_i) + b T(e_j) for ALL pairs i<j x coefficient grid {(1,1),(2,-3),(1e-3,1e3),(-0.5,1e6)}, '
+        '(2) superposition T(a e_i + b e_j) = a T(e_i) + b T(e_j) for ALL pairs i<j x coefficient grid {(1,1),(1,-1),(2,-3),(1e-3,1e3),(-0.5,1e6)}, '
         'homogeneity over 24 decades on every impulse and on dense vectors, dense + every impulse; (3) slice independence: for all '
         '(N,C) in {(1,2),(2,1),(2,3),(3,2)} (thorough: all of [1..4]^2), every (n,c) and every impulse i (every k-th impulse, offset by the slice, when a slice has more than 32 inputs), the input that is e_i in slice (n,c) only gives column i of the '
         'single-slice operator in slice (n,c) of every band and exact zeros in every other slice (full operator = kron(I, A)). '
@@ -18,7 +18,7 @@ RULE = ('for every transform family (1-D/2-D DWT forward+inverse, SWT, DTCWT for
 ASSUMPTIONS = ['finite alphabet: a data-dependent branch that only triggers on values outside it would escape (DESIGN section 7)',
                'the advisory TorchDispatchMode taint monitor of DESIGN 3/C07 was not built']
 CHUNK = 1
-COEFS = [(1.0, 1.0), (2.0, -3.0), (1e-3, 1e3), (-0.5, 1e6)]
+COEFS = [(1.0, 1.0), (1.0, -1.0), (2.0, -3.0), (1e-3, 1e3), (-0.5, 1e6)]
 SCALES = [1e-12, 1e-6, 1e-3, -1.0, 2.0, 1e3, 1e6, 1e12]
 
 
